@@ -93,6 +93,14 @@ def print_all(lib, tree, stats=None, prebuf_subset=None):
     return out
 
 
+OWN_RE = re.compile(r"\(([ntfNSRAO])c?r?")
+
+
+def strip_ownership(dump):
+    """canonical dump without the ownership flags (constant key, reference): what is left is the VALUE"""
+    return OWN_RE.sub(r"(\1", dump)
+
+
 def mask_numbers(dump):
     nums = [(m.group(1), int(m.group(2))) for m in NUM_RE.finditer(dump)]
     return NUM_RE.sub("#;", dump), nums
@@ -188,3 +196,53 @@ def build_flagged(lib, jv, arena, rnd, p_const=0.5, p_ref=0.3):
                 lib.cJSON_AddItemToObject(o, k, c)
         return o
     return build_tree(lib, jv)
+
+
+ROOT_VARIANTS = ["plain", "plain", "plain", "cs_member", "reference", "flagged_tree", "stale_key"]
+
+
+class RootVariant:
+    """the same VALUE as build_tree(jv) handed to a printer as an item that carries ownership flags at the ROOT:
+    a former constant-key member (cJSON_StringIsConst + key), a reference node (cJSON_IsReference), a former ordinary
+    member (stale key), or a tree with flags inside.  Printers look at values only; flags and the root's own key must not matter."""
+
+    def __init__(self, lib, jv, variant, rnd):
+        self.lib = lib
+        self.arena = Arena(lib)
+        self.extra = []
+        self.variant = variant
+        if variant == "flagged_tree":
+            self.root = build_flagged(lib, jv, self.arena, rnd)
+            return
+        tree = build_tree(lib, jv)
+        self.root = tree
+        if variant == "cs_member":
+            tmp = lib.cJSON_CreateObject()
+            lib.cJSON_AddItemToObjectCS(tmp, self.arena.put(b"constant key"), tree)
+            lib.cJSON_DetachItemViaPointer(tmp, tree)
+            lib.cJSON_Delete(tmp)
+        elif variant == "stale_key":
+            tmp = lib.cJSON_CreateObject()
+            lib.cJSON_AddItemToObject(tmp, b"former \"name\"", tree)
+            lib.cJSON_DetachItemViaPointer(tmp, tree)
+            lib.cJSON_Delete(tmp)
+        elif variant == "reference":
+            t = lib.shim_type(tree) & 0xFF
+            if t == 64:
+                ref = lib.cJSON_CreateObjectReference(lib.shim_child(tree))
+            elif t == 32:
+                ref = lib.cJSON_CreateArrayReference(lib.shim_child(tree))
+            else:
+                tmp = lib.cJSON_CreateArray()
+                lib.cJSON_AddItemReferenceToArray(tmp, tree)
+                ref = lib.cJSON_DetachItemFromArray(tmp, 0)
+                lib.cJSON_Delete(tmp)
+            if ref:
+                self.extra.append(tree)   # the referenced tree stays alive until close()
+                self.root = ref
+
+    def close(self):
+        self.lib.cJSON_Delete(self.root)
+        for t in self.extra:
+            self.lib.cJSON_Delete(t)
+        self.arena.close()
